@@ -284,5 +284,28 @@ Definition type_number (c : cref) (t : text) (st : store) : store :=
   | None => set_cont st c (CString t)
   end.
 
+(* the public API Model::update_cell_with_number: since /repo 0aeb22c it starts with
+   `if !value.is_finite() { return Err(..) }`; None = Err, nothing written *)
+Definition api_set_number (c : cref) (v : num) (st : store) : option store :=
+  if nis_finite N v then Some (set_cont st c (CNumber v)) else None.
+
+(* the xlsx importer, a cell of type "n": since /repo 3c03706 the text of <v> is read as
+   cell_value.unwrap_or("0").parse::<f64>().ok().filter(|v| v.is_finite()).unwrap_or(0.0) at its three
+   sites: a number cell, the number of a spill cell, the cached value of a formula *)
+Definition import_number (t : option text) : num :=
+  match nof_text_strict N (match t with Some x => x | None => [48] end) with
+  | Some v => if nis_finite N v then v else nzero N
+  | None => nzero N
+  end.
+Inductive import_site : Type := ImpNumberCell | ImpSpillCell (arow acol : Z) | ImpFormulaValue (f : ast).
+Definition import_content (k : import_site) (t : option text) : content :=
+  match k with
+  | ImpNumberCell => CNumber (import_number t)
+  | ImpSpillCell ar ac => CSpill ar ac (PNum (import_number t))
+  | ImpFormulaValue f => CFormula f (FNum (import_number t))
+  end.
+Definition import_cell (c : cref) (k : import_site) (t : option text) (st : store) : store :=
+  set_cont st c (import_content k t).
+
 End Store.
 Arguments CEmpty {num}.
